@@ -176,6 +176,7 @@ class Recorder:
         self.last_post = {}      # env id -> copy of current tensor after the last recorded call
         self.envs = {}
         self.counts = {}
+        self.prev_obs = {}       # env id -> (observation array returned by the last reset / step, its hash then)
         self.held = {}           # id(State object the harness keeps) -> (object, sha of its tensor when it was kept)
 
     def close(self):
@@ -340,7 +341,9 @@ class Recorder:
         after = env.current_state.tensor
         arity = len(ret) if isinstance(ret, tuple) else -1
         obs = ret[0] if arity >= 1 else ret
-        ev = dict(ev="reset", env=eid,
+        prev_same = self._prev_obs_same(eid)
+        self.prev_obs[eid] = (obs, sha(np.asarray(obs)))
+        ev = dict(ev="reset", env=eid, prev_obs_same=prev_same,
                   pre_rows=diff_rows(self.last_post[eid], before),
                   post_rows=diff_rows(before, after),
                   obs=self.obs_record(env, obs, after),
@@ -380,8 +383,10 @@ class Recorder:
         after = after_state.tensor
         arity = len(ret) if isinstance(ret, tuple) else -1
         obs, reward, term, trunc, info = ret
+        prev_same = self._prev_obs_same(eid)
+        self.prev_obs[eid] = (obs, sha(np.asarray(obs)))
         uppm = ppm(u) if u is not None else ppm_recorded(self.trip.draws[0]) if self.trip.draws else 500000
-        ev = dict(ev="step", env=eid, a=adesc, u=uppm, ndraw=len(self.trip.draws),
+        ev = dict(ev="step", env=eid, a=adesc, u=uppm, prev_obs_same=prev_same, ndraw=len(self.trip.draws),
                   entropy=list(self.trip.others), blind=bool(self.trip.blind and not self.trip.draws),
                   pre_rows=diff_rows(self.last_post[eid], before),
                   post_rows=diff_rows(before, after),
@@ -400,6 +405,16 @@ class Recorder:
             ev["grp"] = grp
         self.last_post[eid] = after.copy()
         return self.emit(ev)
+
+    def _prev_obs_same(self, eid):
+        """the array the previous reset / step of this environment returned still holds what it held then"""
+        if eid not in self.prev_obs:
+            return True
+        arr, h = self.prev_obs[eid]
+        try:
+            return bool(sha(np.asarray(arr)) == h)
+        except Exception:      # noqa
+            return False
 
     def _rehold(self, state):
         """step() / reset() may legitimately work in place on the object that was current when they were called
